@@ -258,7 +258,20 @@ func synthDynamic(rng *rand.Rand, w *BitW, plain []byte, br int) []byte {
 		v := all[i]
 		useRep := rng.Intn(3) > 0
 		if v == 0 && run >= 3 && useRep {
+			first := true
 			for run >= 3 {
+				if !first && rng.Intn(2) == 0 {
+					// RFC 1951: 16 copies the previous code length, which is
+					// zero after a 17/18 run
+					r := run
+					if r > 6 {
+						r = 6
+					}
+					seq = append(seq, cl{16, r - 3, 2})
+					run -= r
+					continue
+				}
+				first = false
 				if run >= 11 && rng.Intn(2) == 0 {
 					r := run
 					if r > 138 {
